@@ -408,8 +408,8 @@ def jobs_for(prop, tier):
     if prop == 'C07':
         return [j for j in jobs_option_below(tier) if j[1][3] == 'combinations'] + jobs_combinations(tier)
     if prop == 'C03':
-        return jobs_c03(tier) + jobs_option_reduce(tier)
-    return {'C02': jobs_c02, 'C03': jobs_c03, 'C04': jobs_c04, 'C06': jobs_c06, 'C08': (lambda t: jobs_c08(t) + jobs_numpy(t) + jobs_union(t)), 'C17': jobs_c17, 'C12': jobs_numpy, 'C10': jobs_c10, 'C05': jobs_c05, 'C09': jobs_c09}.get(prop, lambda t: [])(tier)
+        return jobs_c03(tier) + jobs_option_reduce(tier) + jobs_axis(tier, ('reduce',))
+    return {'C02': jobs_c02, 'C03': jobs_c03, 'C04': jobs_c04, 'C06': (lambda t: jobs_c06(t) + jobs_axis(t, ('sort', 'argsort'))), 'C08': (lambda t: jobs_c08(t) + jobs_numpy(t) + jobs_union(t)), 'C17': jobs_c17, 'C12': jobs_numpy, 'C10': jobs_c10, 'C05': jobs_c05, 'C09': jobs_c09}.get(prop, lambda t: [])(tier)
 
 
 # ------------------------------------------------------------------------------------------------ C01: getitem_next of list nodes
@@ -2543,3 +2543,91 @@ def h_fillna(pattern, mergeable):
 def jobs_fillna(tier):
     pats = [(0, 1, 0), (1, 1), (0, 0)] if tier == 'quick' else [p for k in (1, 2, 3, 4) for p in itertools.product((0, 1), repeat=k)]
     return [(h_fillna, (p, mg), 1800) for p in pats for mg in (True, False)]
+
+
+# ------------------------------------------------------------------------------------------------ C03 / C06: axis normalisation in Content::reduce / sort / argsort
+@guard
+def h_content_axis(method, n):
+    """Content::reduce / sort / argsort (the public entry points): the axis is translated to 'levels counted from the leaves' - a non-negative axis a
+    on a structure of depth d means d - a, a negative axis -k means k -, an axis outside the depth (or a non-negative axis on a structure whose
+    branches differ in depth) raises; the node's own *_next method then receives that value, one group (parents all 0, starts [0], outlength 1) and
+    the caller's flags unchanged"""
+    nc = NodeCtx(['CNT', 'IDX', 'UTL', 'KD', 'IDS'], [], unwind=max(10, n + 8))
+    axis, depth, branch = nc.m.bv('axis'), nc.m.bv('depth'), z3.Bool('branches')
+    f1, f2 = z3.Bool('flag1'), z3.Bool('flag2')
+    nc.m.assume(axis >= -200, axis <= 200, depth >= 1, depth <= 100, nc.lencontent == n)
+    seen = []
+    S = nc.slot
+    nc.m.eng.stubs['vf$slot%d' % S('12branch_depthEv')] = lambda eng, fr, ins, st, name, argv: [z3.If(branch, z3.BitVecVal(1, 8), z3.BitVecVal(0, 8)), depth]
+
+    def s_next(eng, fr, ins, st, name, argv):
+        sret = argv[0]
+        if method == 'reduce':
+            _, selfp, reducer, negaxis, starts, shifts, parents, outlength, a1, a2 = argv
+            nsh = st.mem.o[shifts.obj].cells[shifts.off + 40][0]
+        elif method == 'sort':
+            _, selfp, negaxis, starts, parents, outlength, a1, a2 = argv
+            nsh = BV(0)
+        else:
+            _, selfp, negaxis, starts, shifts, parents, outlength, a1, a2 = argv
+            nsh = st.mem.o[shifts.obj].cells[shifts.off + 40][0]
+        seen.append(dict(pc=st.pc, negaxis=negaxis, starts=nc.index_terms(st.mem, starts, 'starts')[0], parents=nc.index_terms(st.mem, parents, 'parents')[0], nshifts=nsh,
+                         outlength=outlength, a1=a1, a2=a2))
+        k = z3.BitVec('k!', 64)
+        nc._ret(st, sret, nc.fresh_content(eng, st, BV(1), z3.Lambda([k], k + 77), derived='next'))
+        return None
+    frag = {'reduce': '11reduce_nextERKNS_7ReducerEl', 'sort': '9sort_nextEl', 'argsort': '12argsort_nextEl'}[method]
+    nc.m.eng.stubs['vf$slot%d' % S(frag)] = s_next
+    nc.m.eng.stubs['vf$slot%d' % S('17getitem_at_nowrapEl')] = lambda eng, fr, ins, st, name, argv: (nc._ret(st, argv[0], nc.fresh_content(eng, st, BV(1), z3.K(z3.BitVecSort(64), BV(5)))), None)[1]
+    reducer = nc.m.record('reducer', {0: (Ptr('fakevt', 0), 8)}, const=True)
+    nc.m.record('ret', {})
+    b1, b2 = z3.If(f1, z3.BitVecVal(1, 1), z3.BitVecVal(0, 1)), z3.If(f2, z3.BitVecVal(1, 1), z3.BitVecVal(0, 1))
+    if method == 'reduce':
+        out = nc.m.call('_ZNK7awkward7Content6reduceERKNS_7ReducerElbb', [Ptr('ret', 0), nc.content0, reducer, axis, b1, b2])
+    else:
+        out = nc.m.call('_ZNK7awkward7Content%sElbb' % ('4sort' if method == 'sort' else '7argsort'), [Ptr('ret', 0), nc.content0, axis, b1, b2])
+    want = z3.If(axis >= 0, depth - axis, -axis)
+    valid = z3.And(want >= 1, want <= depth, z3.Or(z3.Not(branch), axis < 0))
+    called = z3.Or([ob['pc'] for ob in seen] + [z3.BoolVal(False)])
+    obls = [('raises exactly when the axis does not name a level of the structure', z3.simplify(out.raised) != z3.Not(valid)),
+            ('an invalid axis never reaches the node', z3.And(z3.Not(valid), called)), ('a valid axis reaches the node', z3.And(valid, z3.Not(called)))]
+    for ob in seen:
+        g = ob['pc']
+        obls.append(('the node receives the axis as levels counted from the leaves', z3.And(g, ob['negaxis'] != want)))
+        obls.append(('one group: starts = [0], outlength = 1, no shifts', z3.And(g, z3.Or(z3.BoolVal(len(ob['starts']) != 1), ob['starts'][0] != 0 if ob['starts'] else z3.BoolVal(True), ob['outlength'] != 1, ob['nshifts'] != 0))))
+        obls.append(('every entry belongs to that group (parents all 0, one per entry)', z3.Or([g] if len(ob['parents']) != n else [z3.And(g, p != 0) for p in ob['parents']] + [z3.BoolVal(False)])))
+        obls.append(('the flags of the caller are passed on unchanged', z3.And(g, z3.Or(ob['a1'] != b1, ob['a2'] != b2))))
+    def replay(model, ent):
+        import numpy as np
+        ev = lambda t: model.eval(t, model_completion=True)
+        A, D, B = ev(axis).as_signed_long(), ev(depth).as_signed_long(), z3.is_true(ev(branch))
+        if B or not (1 <= D <= 3):
+            return False, 'replay needs a non-branching structure of depth <= 3', dict(axis=A, depth=D, branching=B)
+        vals = [(7 * k + 3) % 11 for k in range(2 ** D)]
+        arr = np.array(vals).reshape((2,) * D)
+        prog = 'i64 %s ' % fullnative.ints(vals) + ''.join('regular 2 %d ' % (2 ** (D - 1 - lvl)) for lvl in range(D - 1))
+        ok_axis = -D <= A < D
+        if method == 'reduce':
+            prog += 'reduce sum %d 0 0' % A
+            exp = arr.sum(axis=A).tolist() if ok_axis else None
+        elif method == 'sort':
+            prog += 'sort %d 1 1' % A
+            exp = np.sort(arr, axis=A, kind='stable').tolist() if ok_axis else None
+        else:
+            prog += 'argsort %d 1 1' % A
+            exp = np.argsort(arr, axis=A, kind='stable').tolist() if ok_axis else None
+        kind_, got = fullnative.akrun(prog)
+        payload = dict(program=prog, native=[kind_, got], expected=exp)
+        if exp is None:
+            if kind_ != 'ERR':
+                return True, '%s(axis=%d) on a depth-%d array: the axis is out of range but the native library returns %s %s' % (method, A, D, kind_, str(got)[:120]), payload
+            return False, 'native library raises', payload
+        if kind_ != 'OK' or got != exp:
+            return True, '%s(axis=%d) on %s: native library %s %s, NumPy gives %s' % (method, A, arr.tolist(), kind_, str(got)[:150], exp), payload
+        return False, 'native library agrees with NumPy (%s)' % (got,), payload
+    return mdischarge(nc.m, 'Content::%s axis normalisation n=%d' % (method, n), obls, [('valid positive axis', z3.And(valid, axis > 0)), ('valid negative axis', z3.And(valid, axis < 0)), ('invalid', z3.Not(valid))],
+                      replay=replay, prefer=[z3.Not(branch), depth <= 3, axis >= -4, axis <= 4], extra=dict(bounds='any axis in [-200, 200], depth 1..100, branching or not, %d entries' % n))
+
+
+def jobs_axis(tier, methods):
+    return [(h_content_axis, (m_, n), 1800) for m_ in methods for n in ((0, 2) if tier == 'quick' else (0, 1, 2, 3))]
